@@ -9,5 +9,10 @@ CONSTANTS
   MergeMax = 5
   AppendMax = 2
   ZipSizes = {1,2,3,4}
+  RawNs = {1,2,4,7}
+  RawSpans = {1,2,3,7}
+  BmNs = {3,5,6}
+  SmallMax = 3
+  ExtractNs = {4,6}
   Emit = TRUE
 INVARIANTS PartsOK MergeOK TreesClear EmitCase
